@@ -1,5 +1,6 @@
 """C07: analysis is total (partial). Engine termination theorem + totality sweep over real packages."""
 import os
+import re
 import shutil
 
 from . import common
@@ -34,6 +35,21 @@ def sweep(ctx):
     for sub in ("c10", "c15", "det/m3", "det/m9", "det/m5", "c03/m11", "c07/shapes", "c02", "c08", "c20"):
         # the crash regressions (c07/shapes) need their flag: all four configurations in both tiers
         targets.append((os.path.join(common.VERIF, "corpus", sub), ["./..."], FLAGS[:4] if ctx.tier == "thorough" or sub == "c07/shapes" else FLAGS[:2]))
+    # the same small corpora with redundant parentheses everywhere (checks/texture.py `parens`): totality must not depend
+    # on how an expression is bracketed
+    from . import texture
+    import shutil
+    scratch = ctx.scratch()
+    for sub in ("c07/shapes", "c02", "c08", "c20"):
+        d = texture.make(os.path.join(common.VERIF, "corpus", sub), "parens", os.path.join(scratch, sub.replace("/", "_")))
+        targets.append((d, ["./..."], FLAGS[:4] if sub == "c07/shapes" else FLAGS[:1]))
+    try:
+        return _sweep(ctx, targets, base, runs, pk, bad, known)
+    finally:
+        shutil.rmtree(scratch, ignore_errors=True)
+
+
+def _sweep(ctx, targets, base, runs, pk, bad, known):
     for d, pats, flagsets in targets:
         for flags in flagsets:
             r, err = wt.analyze(d, flags=flags, patterns=pats, timeout=1800 if d in (base, common.REPO) else 300)
@@ -59,6 +75,31 @@ def sweep(ctx):
     return runs, pk, bad
 
 
+def treesize(ctx):
+    """corpus/c07/treesize (finding F109): small functions whose assertion trees grow exponentially.  The REAL binary, under a
+    memory and a time limit -- without the bound the run needs minutes and tens of gigabytes and dies of the Go runtime's
+    out-of-memory fatal error.  -> list of failures"""
+    d = os.path.join(common.VERIF, "corpus", "c07", "treesize")
+    env = dict(common.GOENV)
+    env["NO_COLOR"] = "1"
+    cmd = "ulimit -v 12000000; exec timeout 240 %s -pretty-print=false ./..." % os.path.join(common.BIN, "nilaway")
+    rc, out, err = common.sh2(["bash", "-c", cmd], cwd=d, env=env, timeout=300)
+    text = err + "\n" + out
+    bad = []
+    if rc not in (0, 1, 3) or "fatal error" in text or "out of memory" in text:
+        bad.append("the driver was brought down (exit %s) on corpus/c07/treesize: %s" % (rc, text[-300:].replace("\n", " | ")))
+        return bad
+    if "INTERNAL PANIC" in text:
+        bad.append("INTERNAL PANIC on corpus/c07/treesize: %s" % text[:300].replace("\n", " | "))
+    # the permitted self-reported failure, for exactly the two pathological functions; the control package is analysed
+    skips = re.findall(r"skipping function `(\w+)\(\)` at \S*?(\w+/a\.go):\d+:\d+: function too large", text)
+    if sorted(x[1] for x in skips) != ["fanout/a.go", "seq/a.go"]:
+        bad.append("corpus/c07/treesize: expected the documented skip for fanout/a.go and seq/a.go, got %r" % (skips,))
+    if not re.search(r"small/a\.go:29:\d+: ", text):
+        bad.append("corpus/c07/treesize: the ordinary dereference at small/a.go:29 (a function with the same shape below the bound) is no longer reported")
+    return bad
+
+
 def run(ctx):
     ok, msg = ctx.build_tools()
     if not ok:
@@ -77,6 +118,10 @@ def run(ctx):
     ctx.obligation("engine on %d well-formed scenarios: the real engine never panics, the model never runs out of fuel" % len(lines), rc1 == 0 and rc2 == 0 and not eng_bad)
     runs, pk, bad = sweep(ctx)
     ctx.obligation("totality sweep: %d whole-tool runs (the entire standard library, nilaway's own packages, the corpora; default configuration and documented flags): terminates, no driver error, no INTERNAL PANIC / INTERNAL ERROR other than the over-sized-function skip" % runs, runs > 0 and not bad)
+    tbad = treesize(ctx)
+    ctx.obligation("corpus/c07/treesize: two 40-line functions whose assertion trees grow exponentially (a loop descending into one of eight fields; 24 consecutive switches) do not bring the driver down (real binary under ulimit -v 12 GB, 240 s): they are skipped as over-sized, the control package is analysed", not tbad)
+    for b in tbad[:2]:
+        ctx.violation("treesize", "C07 fails on the real tool: %s\nreplay: cd corpus/c07/treesize && (ulimit -v 12000000; timeout 240 bin/nilaway -pretty-print=false ./...)\n" % b)
     for kf in ctx.known_for():
         if kf["id"] == "F13":
             d = ctx.scratch()
